@@ -1118,8 +1118,23 @@ func wrapFuncValue(p *Program, pk *packages.Package, id *ast.Ident, fn *types.Fu
 // EXPR means the same thing at the call site (package-level names not shadowed there, imported packages imported
 // under the same name by the caller's file). The call is replaced by (EXPR) with the parameters substituted.
 func inlineExpr(p *Program, pk *packages.Package, f *ast.File, call *ast.CallExpr, fd *ast.FuncDecl, obj *types.Func, tparamSubst map[*types.TypeName]string, txt func(ast.Node) string, tfile *token.File) (textEdit, bool) {
-	if tparamSubst != nil || fd.Body == nil || len(fd.Body.List) != 1 || fd.Recv != nil {
+	if tparamSubst != nil || fd.Body == nil || len(fd.Body.List) != 1 {
 		return textEdit{}, false
+	}
+	// a method: the receiver is one more parameter, given by the operand of the call's selector; it may only be
+	// used to select a field or method (so that pointer/value receivers make no difference)
+	var recvObj types.Object
+	recvText := ""
+	if fd.Recv != nil {
+		sel, isSel := call.Fun.(*ast.SelectorExpr)
+		if !isSel || len(fd.Recv.List) != 1 || len(fd.Recv.List[0].Names) != 1 || !pureExpr(sel.X) {
+			return textEdit{}, false
+		}
+		recvObj = pk.TypesInfo.Defs[fd.Recv.List[0].Names[0]]
+		if recvObj == nil {
+			return textEdit{}, false
+		}
+		recvText = "(" + txt(sel.X) + ")"
 	}
 	ret, ok := fd.Body.List[0].(*ast.ReturnStmt)
 	if !ok || len(ret.Results) != 1 {
@@ -1169,6 +1184,15 @@ func inlineExpr(p *Program, pk *packages.Package, f *ast.File, call *ast.CallExp
 		}
 		imports[path] = name
 	}
+	recvSelected := map[*ast.Ident]bool{}
+	ast.Inspect(ret.Results[0], func(n ast.Node) bool {
+		if se, ok := n.(*ast.SelectorExpr); ok {
+			if id, ok := se.X.(*ast.Ident); ok {
+				recvSelected[id] = true
+			}
+		}
+		return true
+	})
 	ast.Inspect(ret.Results[0], func(n ast.Node) bool {
 		switch x := n.(type) {
 		case *ast.FuncLit:
@@ -1196,6 +1220,14 @@ func inlineExpr(p *Program, pk *packages.Package, f *ast.File, call *ast.CallExp
 		case *ast.Ident:
 			o := pk.TypesInfo.Uses[x]
 			if o == nil {
+				return true
+			}
+			if recvObj != nil && o == recvObj {
+				if !recvSelected[x] {
+					okAll = false
+					return true
+				}
+				subs = append(subs, sub{cfile.Offset(x.Pos()), cfile.Offset(x.End()), recvText})
 				return true
 			}
 			if idx, isParam := params[o]; isParam {
